@@ -1,5 +1,6 @@
 // Simulator kernel: virtual clock, event heap, fibers, path model.
 #include "sim.h"
+#include "ref.h"
 #include <stdarg.h>
 #include <stdio.h>
 #include <stdlib.h>
@@ -433,6 +434,33 @@ void Sim::deliver(Dgram d)
 	for (auto m : monitors) m->on_deliver(d, s);
 	if (s->on_rx) { s->on_rx(d); return; }
 	if (s->rx.size() >= 2048) { s->rx_dropped++; count("net.rxq.full"); return; }
+	if (decoy_variant && s->owner && s->owner->is_server && !d.decoy && !(d.src.fam == AF_INET && d.src.a[0] == 127)) {
+		Dgram q;
+		q.decoy = true; q.dst = d.dst; q.src = Addr::v4("10.9.9.9", 9999); q.src_host = -1; q.serial = 0;
+		Bytes &b = q.data;
+		uint16_t id = (uint16_t)(1 + D("decoy.id", dgram_serial + nevents) % 65535);
+		b.push_back(id >> 8); b.push_back(id & 255); b.push_back(1); b.push_back(0);
+		b.push_back(0); b.push_back(1); b.push_back(0); b.push_back(0); b.push_back(0); b.push_back(0); b.push_back(0); b.push_back(0);
+		if (decoy_variant == 2 && !decoy_prev_name.empty()) b.insert(b.end(), decoy_prev_name.begin(), decoy_prev_name.end());
+		else { static const char *lab = "decoyfillerdecoyfillerdecoyfiller"; for (int i = 0; i < 3; i++) { b.push_back(33); b.insert(b.end(), lab, lab + 33); } }
+		static const char tld[] = "\007invalid";
+		b.insert(b.end(), tld, tld + 8); b.push_back(0);
+		b.push_back(0); b.push_back(16); b.push_back(0); b.push_back(1);
+		count("fault.decoy");
+		s->rx.push_back(std::move(q));
+		// remember the name of this (real) query for the next decoy
+		if (d.data.size() > 17 && !(d.data[2] & 0x80)) {
+			size_t o = 12; Bytes nm; int guard = 0;
+			while (o < d.data.size() && d.data[o] && !(d.data[o] & 0xc0) && o + 1 + d.data[o] <= d.data.size() && nm.size() + d.data[o] + 1 < 200 && guard++ < 64) {
+				// only labels of plain printable characters: a NUL or a dot inside a label would change what the C string looks like
+				bool plain = true;
+				for (size_t i = 1; i <= d.data[o]; i++) { uint8_t c = d.data[o + i]; if (c <= 0x20 || c == '.' || c == 0x7f) plain = false; }
+				if (!plain) break;
+				nm.insert(nm.end(), d.data.begin() + o, d.data.begin() + o + 1 + d.data[o]); o += 1 + d.data[o];
+			}
+			if (!nm.empty()) decoy_prev_name = nm;
+		}
+	}
 	s->rx.push_back(std::move(d));
 }
 
@@ -472,6 +500,16 @@ static void route(Sim *S, Dgram d)
 		else { f = gen_fate(S, d.stream, d.ordinal, S->now, d); if (S->gen_mutator) S->gen_mutator(d, f); }
 	}
 	if (f.has_replace) { d.data = f.replace; S->count("fault.replace"); }
+	if (f.synth_size > 0) {
+		DnsMsg m;
+		if (dns_parse_strict(d.data, m).empty() && m.qd.size() == 1) {
+			Bytes pl((size_t)f.synth_size + 2);
+			pl[0] = 0x80; pl[1] = (uint8_t)(((f.synth_seq & 7) << 5) | ((f.synth_frag & 15) << 1) | (f.synth_last & 1));
+			for (size_t i = 2; i < pl.size(); i++) pl[i] = (uint8_t)(splitmix64(f.synth_key + i / 8) >> (8 * (i % 8)));
+			d.data = build_answer(m.id, m.qd[0].name.dotted(), m.qd[0].type, pl, f.synth_enc);
+			S->count("fault.synth_fragment");
+		}
+	}
 	if (!f.is_default()) { S->fired.push_back({key, f}); if (S->on_fired) S->on_fired(key, f); }
 	S->fp_mix_u64(d.stream); S->fp_mix_u64(d.ordinal);
 	if (f.drop) { S->count("fault.drop"); S->tracef("FATE drop s%d#%llu", d.stream, (unsigned long long)d.ordinal); return; }
